@@ -262,6 +262,62 @@ func init() {
 			return IfaceV{T: c.iterT(), V: &IterV{it: s.ids.Iterator()}}
 		},
 		"Apply": applyMethod,
+		"Memset": func(c *Ctx, s *Shadow, args []Value, sig *types.Signature) Value {
+			iv, ok := args[0].(IfaceV)
+			if !ok || iv.T == nil {
+				panic(c.abort("Memset(nil)"))
+			}
+			t, ok := iv.V.(*smt.Term)
+			vb, ok2 := iv.T.Underlying().(*types.Basic)
+			if !ok || !ok2 {
+				panic(c.abort("Memset with %s", typeString(iv.T)))
+			}
+			vd, _ := dtypeOfBasic(vb)
+			c.noteDataWrite(s, "Memset")
+			var err error
+			if p := c.nativeCall("Memset", func() { err = s.twin.Memset(benignScalar(vd)) }); p != nil {
+				panic(p)
+			}
+			if err == nil {
+				if vd != s.dt {
+					panic(c.abort("Memset: twin accepted a value of another type"))
+				}
+				if s.ids.IsScalar() {
+					s.ids.Set(0, t.ID)
+				} else if e2 := s.ids.Memset(t.ID); e2 != nil {
+					panic(c.abort("Memset on ids: %v", e2))
+				}
+			}
+			return c.natErr(err)
+		},
+		"Get": func(c *Ctx, s *Shadow, args []Value, sig *types.Signature) Value {
+			i := int(c.concInt(args[0].(*smt.Term), "Get index"))
+			var id interface{}
+			if p := c.nativeCall("Get", func() { id = s.ids.Get(i); _ = s.twin.Get(i) }); p != nil {
+				panic(p)
+			}
+			so, _ := c.elemSort(s.dt)
+			return IfaceV{T: basicOfDtype(s.dt), V: c.termOfID(id.(int64), so)}
+		},
+		"Set": func(c *Ctx, s *Shadow, args []Value, sig *types.Signature) Value {
+			i := int(c.concInt(args[0].(*smt.Term), "Set index"))
+			iv, ok := args[1].(IfaceV)
+			if !ok || iv.T == nil {
+				panic(c.abort("Set(nil)"))
+			}
+			t, ok := iv.V.(*smt.Term)
+			vb, ok2 := iv.T.Underlying().(*types.Basic)
+			if !ok || !ok2 {
+				panic(c.abort("Set with %s", typeString(iv.T)))
+			}
+			vd, _ := dtypeOfBasic(vb)
+			c.noteDataWrite(s, "Set")
+			if p := c.nativeCall("Set", func() { s.twin.Set(i, benignScalar(vd)) }); p != nil {
+				panic(p)
+			}
+			s.ids.Set(i, t.ID)
+			return nil
+		},
 	}
 }
 
